@@ -381,6 +381,8 @@ class MediaSegmentList(HTMLHandlerBase):
     decorators = [uses_media_file, uses_stream]
 
     def get(self, spk: int, mfid: int) -> flask.Response:
+        if current_media_file.representation is None:
+            return flask.make_response('Media file needs indexing', 404)
         context = self.create_context()
         start = 0
         segments = []
